@@ -532,7 +532,7 @@ func (a *Analysis) killReg(st State, v ssa.Value) State {
 
 // KillShared forgets every state atom that reads node-shared memory (an unlock window).
 func (a *Analysis) KillShared(st State) State {
-	return a.killWhere(st, func(at *Atom) bool { return at.dep.Shared })
+	return a.killWhere(st, func(at *Atom) bool { return at.dep.Shared && !at.Stable })
 }
 
 func (a *Analysis) killAll(st State) State {
@@ -768,6 +768,14 @@ func (a *Analysis) store(f *Frame, addr, val ssa.Value, st State) State {
 			} else if atom.B == loc && atom.A == vt.S {
 				a.absorb(atom, locTerm, vt)
 				st = sp.Assign(st, i, EQ)
+			} else if isFreshObject(val) && ((atom.A == loc && atom.B == "nil") || (atom.B == loc && atom.A == "nil")) {
+				// the address of a freshly allocated object is not nil ("greater than nil" by convention)
+				a.absorb(atom, locTerm)
+				if atom.A == loc {
+					st = sp.Assign(st, i, GT)
+				} else {
+					st = sp.Assign(st, i, LT)
+				}
 			} else if c, ok := val.(*ssa.Const); ok {
 				// comparison of the location with another constant
 				var other string
@@ -819,6 +827,15 @@ func (a *Analysis) store(f *Frame, addr, val ssa.Value, st State) State {
 		}
 	}
 	return st
+}
+
+// isFreshObject reports whether v is the address of an object allocated by this instruction.
+func isFreshObject(v ssa.Value) bool {
+	switch v.(type) {
+	case *ssa.Alloc, *ssa.MakeMap, *ssa.MakeChan, *ssa.MakeSlice, *ssa.MakeClosure:
+		return true
+	}
+	return false
 }
 
 // rootAlloc returns the local allocation an address is derived from by field/index steps only.
